@@ -104,7 +104,18 @@ func runC07(ctx *core.Ctx, idx int) *core.Result {
 		if order == 0 {
 			files = append(files, fi{"a_good.go", m.Good, false})
 		}
-		files = append(files, fi{"b_bad.go", m.Bad, true})
+		bad := m.Bad
+		if k := r.Intn(4); k > 0 && strings.HasPrefix(bad, "package p\n") && !strings.Contains(bad, "import") {
+			// the shape of the import section must not decide whether the rewritten text is looked at again: none, one
+			// declaration, several declarations (a cgo preamble, a group and a single line), all of them unused by
+			// the code and untouched by the patch
+			imp := []string{"", "import \"os\"\n\nvar _ = os.Args\n", "import \"C\"\n\nimport \"os\"\n\nvar _ = os.Args\n", "import (\n\t\"os\"\n)\n\nimport \"io\"\n\nimport (\n\t\"fmt\"\n)\n\nvar _, _, _ = os.Args, io.EOF, fmt.Sprint\n"}[k]
+			if nb := strings.Replace(bad, "package p\n", "package p\n\n"+imp, 1); gen.Parses(nb) {
+				bad = nb
+				res.Ob("misfit-files-with-import-declarations", 1)
+			}
+		}
+		files = append(files, fi{"b_bad.go", bad, true})
 		if order != 0 {
 			files = append(files, fi{"c_good.go", m.Good, false})
 		}
